@@ -91,27 +91,28 @@ Definition bkey (q : query) (t : Z) : Z := if q_interval q =? 0 then 0 else buck
 Definition row_part (aggs : list aggcol) (r : row) : prow :=
   map (fun a : aggcol => match field_of r (snd (fst a)) with Some v => Some (pinj (fst r, v)) | None => None end) aggs.
 
-Definition raw_item (q : query) (aggs : list aggcol) (r : row) : Z * prow := (bkey q (fst r), row_part aggs r).
+(* kf : key of a row's time - bkey q for an ascending scan, its mirror image for a descending one *)
+Definition raw_item (kf : Z -> Z) (aggs : list aggcol) (r : row) : Z * prow := (kf (fst r), row_part aggs r).
 
 Definition is_some {X} (o : option X) : bool := match o with Some _ => true | None => false end.
 Definition has_value (x : Z * prow) : bool := existsb is_some (snd x).
 
 (* a row that has no value in any of the aggregated fields is not read at all *)
-Definition raw_items (q : query) (aggs : list aggcol) (s : series) : list (Z * prow) :=
-  filter has_value (map (raw_item q aggs) (filter (row_selected q s) (snd s))).
+Definition raw_items (kf : Z -> Z) (q : query) (aggs : list aggcol) (s : series) : list (Z * prow) :=
+  filter has_value (map (raw_item kf aggs) (filter (row_selected q s) (snd s))).
 
 (* fold maximal runs of equal keys (Model.agg_spec with the column-wise combination of partials) *)
 Definition kagg (aggs : list aggcol) : list (Z * prow) -> list (Z * prow) :=
   agg_spec Z.eqb (fun v : prow => v) (rowop aggs).
 
-Definition series_partials (q : query) (aggs : list aggcol) (s : series) : list (Z * prow) :=
-  kagg aggs (ksort (raw_items q aggs s)).
+Definition series_partials (kf : Z -> Z) (q : query) (aggs : list aggcol) (s : series) : list (Z * prow) :=
+  kagg aggs (ksort (raw_items kf q aggs s)).
 
-Definition reader_partials (q : query) (aggs : list aggcol) (rd : list series) : list (Z * prow) :=
-  kagg aggs (kmerge_k (map (series_partials q aggs) rd)).
+Definition reader_partials (kf : Z -> Z) (q : query) (aggs : list aggcol) (rd : list series) : list (Z * prow) :=
+  kagg aggs (kmerge_k (map (series_partials kf q aggs) rd)).
 
-Definition merged_partials (q : query) (aggs : list aggcol) (parts : list (list series)) : list (Z * prow) :=
-  kmerge_k (map (reader_partials q aggs) parts).
+Definition merged_partials (kf : Z -> Z) (q : query) (aggs : list aggcol) (parts : list (list series)) : list (Z * prow) :=
+  kmerge_k (map (reader_partials kf q aggs) parts).
 
 (* StreamAggregateTransform: any cut of the merged stream, pending group carried, one-chunk look-ahead *)
 Definition agg_stage (aggs : list aggcol) (sizes : list nat) (stream : list (Z * prow)) : list (Z * prow) :=
@@ -120,8 +121,9 @@ Definition agg_stage (aggs : list aggcol) (sizes : list nat) (stream : list (Z *
 Definition finalize (aggs : list aggcol) (l : list (Z * prow)) : list arow :=
   map (fun x => (fst x, fin_row aggs (snd x))) l.
 
-Definition l2_partials (q : query) (aggs : list aggcol) (parts : list (list series)) (sizes : list nat) : list (Z * prow) :=
-  agg_stage aggs sizes (merged_partials q aggs parts).
+Definition l2_partials_k (kf : Z -> Z) (q : query) (aggs : list aggcol) (parts : list (list series)) (sizes : list nat) : list (Z * prow) :=
+  agg_stage aggs sizes (merged_partials kf q aggs parts).
+Definition l2_partials (q : query) : list aggcol -> list (list series) -> list nat -> list (Z * prow) := l2_partials_k (bkey q) q.
 
 (* time column of an aggregate without GROUP BY time(): the selected point's time for a single selector *)
 Definition l2_time0 (q : query) (aggs : list aggcol) (pr : prow) : Z :=
